@@ -139,7 +139,7 @@ func genC14parse(g *G) {
 	for i := 0; i < n; i++ {
 		src := sg.template()
 		fs := []srcFile{{"sem.soy", src}}
-		reg, err := jsCompile(fs, nil)
+		reg, err := jsCompile(fs, semGlobals)
 		if err != nil {
 			continue
 		}
@@ -148,11 +148,12 @@ func genC14parse(g *G) {
 			continue
 		}
 		wire := sx("files", sxFile(reg.SoyFiles[0]))
-		r := req("jsparse", hxs(js), wire, hxs("sem.soy"))
+		gl := sxGlobals(semGlobals)
+		r := req("jsparse", hxs(js), wire, hxs("sem.soy"), gl)
 		g.Add(Case{Req: r, SpecReq: r, NoModel: true, NT: true, Class: "fragment", Note: fmt.Sprintf("template#%d seed=%d", i, g.Seed)})
 		for k := 0; k < 2; k++ {
 			bad, how := c14pCorrupt(g.R, js)
-			rb := req("jsparse", hxs(bad), wire, hxs("sem.soy"))
+			rb := req("jsparse", hxs(bad), wire, hxs("sem.soy"), gl)
 			g.Add(Case{Req: rb, SpecReq: rb, NoModel: true, Class: "corrupt", Note: fmt.Sprintf("template#%d seed=%d %s", i, g.Seed, how)})
 		}
 	}
@@ -169,14 +170,14 @@ func genC14parse(g *G) {
 			if !ok {
 				continue
 			}
-			r := req("jsparse", hxs(js), c.wire, hxs(f.Name))
+			r := req("jsparse", hxs(js), c.wire, hxs(f.Name), c.gwire)
 			g.Add(Case{Req: r, SpecReq: r, NoModel: true, Class: "bundle", Note: fmt.Sprintf("bundle#%d seed=%d file=%s", i, g.Seed, f.Name)})
 		}
 	}
 }
 
 func init() {
-	// fields: JavaScript text, compiled files (read by the model only), file name
+	// fields: JavaScript text, compiled files (read by the model only), file name, globals
 	implOps["jsparse"] = func(f []string) string {
 		js, ok := unhx(f[0])
 		if !ok {
